@@ -558,7 +558,7 @@ func init() {
 		Flavours: releaseThenGo126,
 		Required: []string{"write/inside", "write/last-byte", "write/at-end", "write/beyond-end", "write/truncated", "write/empty-buffer", "writeat/at-or-beyond-end", "writeat/truncated", "writeat/ends-exactly-at-limit",
 			"writeat/negative-offset", "seek/whence=0", "seek/whence=1", "seek/whence=2", "seek/invalid-whence", "seek/before-start", "seek/beyond-end", "fault/hit-in-Write", "fault/hit-in-WriteAt", "fault/late-error-style",
-			"section/n=0", "attowriter", "write-after-seek", "write-after-partial-write", "section/ends-at-MaxInt64", "writeat/offset=MaxInt64", "underlying/*os.File", "underlying/*SectionWriter", "underlying/*SectionWriter/inner-reaches-beyond-outer", "attowriter/over-a-SectionWriter", "attowriter/owner-moves-its-cursor", "attowriter/two-views-of-one-file", "writeat/parallel-on-disjoint-ranges", "seek/target-not-representable"},
+			"section/n=0", "attowriter", "write-after-seek", "write-after-partial-write", "section/ends-at-MaxInt64", "writeat/offset=MaxInt64", "underlying/*os.File", "underlying/*SectionWriter", "underlying/*SectionWriter/inner-reaches-beyond-outer", "attowriter/over-a-SectionWriter", "attowriter/owner-moves-its-cursor", "attowriter/two-views-of-one-file", "writeat/parallel-on-disjoint-ranges", "seek/target-not-representable", "attowriter/asserted-to-Seeker"},
 		Families: func(c *mon.Config) []mon.Family {
 			reps := c.Pick(80, 12000)
 			return []mon.Family{
@@ -784,6 +784,16 @@ func c18AtToWriter(w *mon.W, idx int) {
 		if !c.Write(n) {
 			return
 		}
+	}
+	// "behaves as a section from off": when the returned writer also offers Seek and Size (it is a *SectionWriter),
+	// they answer in the section's own coordinates
+	if sk, ok := wr.(io.Seeker); ok && dev.fault.kind != 2 {
+		w.Op = "AtToWriter(...).(io.Seeker).Seek(0,SeekCurrent)"
+		if pos, err := sk.Seek(0, io.SeekCurrent); err != nil || pos != c.cursor-off {
+			w.Fail("AtToWriter/position-not-relative-to-offset", c.detail(mon.D{"AtToWriter_offset": off, "reported": pos, "err": fmt.Sprint(err), "expected": c.cursor - off}))
+			return
+		}
+		w.Bucket("attowriter/asserted-to-Seeker")
 	}
 	if !c.final() {
 		return
